@@ -136,7 +136,24 @@ def coarse_acyclic(schema):
         ref = lvs_ref.RefSchema(schema, FNS)
     except RecursionError:
         return False
-    key = lambda ch: tuple(e[1] if e[0] == 'lit' else '*' for e in ch[0])  # noqa
+    return _acyclic(schema, ref, lambda ch: tuple(e[1] if e[0] == 'lit' else '*' for e in ch[0])) or _acyclic(schema, ref, fine_key)
+
+
+def fine_key(ch):
+    """a name pattern as the statement means it: literals, named patterns by name together with the constraints put on them; temporaries
+    are all taken as alike (so this only ever merges more than the compiler does)"""
+    els, cons = ch
+    out = []
+    for e in els:
+        if e[0] == 'lit':
+            out.append(e[1])
+        else:
+            mine = sorted(repr(opts) for tgt, opts in cons if tgt == (e[0], e[1]))
+            out.append((e[0], e[1] if e[0] == 'pat' else '*', tuple(mine)))
+    return tuple(out)
+
+
+def _acyclic(schema, ref, key):
     edges = {}
     for r in schema:
         for ch in lvs_ref.expand([r] + [x for x in schema if x['id'] != r['id']], r['id']):
@@ -426,6 +443,7 @@ def plan(tier, seed):
     bases = base_schemas()
     units = [{'kind': 'static', 'idx': i} for i in range(len(bases))]
     units += [{'kind': 'positive', 'lo': lo, 'tier': tier} for lo in range(0, 16)]
+    units.append({'kind': 'positive', 'lo': 0, 'tier': tier, 'families': True})
     units += [{'kind': 'binary', 'idx': i} for i in range(len(bases))]
     return {
         'units': units,
@@ -457,8 +475,10 @@ def unit(arg):
         acc.sample({'base_schema': lvs_ref.render(base), 'error_kinds': sorted({k for k, _ in static_mutants(base)})})
     elif arg['kind'] == 'positive':
         srcs = itertools.chain(lvsgen.schemas('quick'), c12.schemas('quick'))
+        if arg.get('families'):
+            srcs = list(lvsgen.families()) + list(c12.family_schemas())
         for i, s in enumerate(srcs):
-            if i % 16 != arg['lo'] or i % (3 if arg['tier'] == 'thorough' else 12) != arg['lo'] % 3:
+            if not arg.get('families') and (i % 16 != arg['lo'] or i % (3 if arg['tier'] == 'thorough' else 12) != arg['lo'] % 3):
                 continue
             if not claimable(s) or not coarse_acyclic(s):
                 acc.no_claim += 1
